@@ -15,12 +15,38 @@ from vlib.core import fin
 
 _CM = {c.id: c for c in load_registered_codemods().codemods}
 SOURCES = {'unused-imports': 'from os import (\n    path,\n    sep,\n    getcwd,\n)\nprint(sep)\n', 'invert-boolean-check': 'a, b = 1, 2\nr1 = not a == b\nr2 = not a < b\nr3 = not a != b\n', 'combine-startswith-endswith': "x = 'abc'\nr1 = x.startswith('a') or x.startswith('b')\nr2 = x.endswith('a') or x.endswith('b')\nr3 = x.startswith('c') or x.startswith('d')\n", 'combine-isinstance-issubclass': 'x = 1\nr1 = isinstance(x, str) or isinstance(x, bytes)\nr2 = isinstance(x, int) or isinstance(x, float)\nr3 = issubclass(int, str) or issubclass(int, bytes)\n', 'use-set-literal': 'x = 1\ns1 = set([1, 2])\ns2 = set([3])\ns3 = set([x, 4])\n', 'use-generator': 'x = [1]\nr1 = any([i for i in x])\nr2 = all([i for i in x])\nr3 = sum([i for i in x])\n', 'remove-unnecessary-f-str': 'x = 1\ns1 = f"hello"\ns2 = f\'world\'\ns3 = f"again"\n', 'fix-empty-sequence-comparison': 'x = [1]\nr1 = 1 if x == [] else 2\nr2 = 1 if x != [] else 2\nr3 = 1 if x == () else 2\n', 'literal-or-new-object-identity': 'x = 1\nr1 = x is [1]\nr2 = x is (1, 2)\nr3 = x is not [2]\n', 'numpy-nan-equality': 'import numpy as np\na = 1\nr1 = a == np.nan\nr2 = a != np.nan\nr3 = np.nan == a\n', 'exception-without-raise': "x = 1\nValueError\nTypeError('a')\nKeyError()\n", 'str-concat-in-sequence-literals': "x = 1\nl1 = ['a' 'b', 'c']\nl2 = ['d', 'e' 'f']\nl3 = ('g' 'h', 'i')\n", 'subprocess-shell-false': "import subprocess\ncmd = 'ls'\nsubprocess.run(cmd, shell=True)\nsubprocess.call(cmd, shell=True)\nsubprocess.check_output(cmd, shell=True)\n", 'fix-math-isclose': 'import math\na = 1.0\nr1 = math.isclose(a, 0)\nr2 = math.isclose(0, a)\nr3 = math.isclose(a, 0.0)\n', 'fix-async-task-instantiation': 'import asyncio\nasync def c(): pass\nasync def m():\n    t1 = asyncio.Task(c())\n    t2 = asyncio.Task(c())\n    t3 = asyncio.Task(c())\n', 'fix-mutable-params': 'x = 1\ndef f1(a=[]): pass\ndef f2(a={}): pass\ndef f3(a=[1]): pass\n', 'replace-flask-send-file': "import flask\nname = 'x'\nflask.send_file(name)\nflask.send_file('a/' + name)\nflask.send_file(name + '.txt')\n"}
+# nested single-line sites: the permitted site is an argument of an enclosing call of the same kind that spans several
+# lines (the enclosing multi-line call is outside C13's statement - "an edit confined to one physical line" - and is
+# exempted through DONTCARE)
+SOURCES['harden-pickle-load#nested'] = 'import pickle\nr1 = pickle.load(a)\nr2 = pickle.load(\n    pickle.load(b),\n)\nr3 = pickle.load(c)\n'
+SOURCES['use-defusedxml#nested'] = 'import xml.dom.minidom\nr1 = xml.dom.minidom.parse(a)\nr2 = xml.dom.minidom.parse(\n    xml.dom.minidom.parse(b),\n)\nr3 = xml.dom.minidom.parse(c)\n'
+SOURCES['https-connection#nested'] = 'import urllib3\nr1 = urllib3.HTTPConnectionPool(a)\nr2 = urllib3.HTTPConnectionPool(\n    urllib3.HTTPConnectionPool(b),\n)\nr3 = urllib3.HTTPConnectionPool(c)\n'
+SOURCES['use-generator#nested'] = 'x = [1]\nr1 = any([i for i in x])\nr2 = print(\n    all([i for i in x]),\n)\nr3 = sum([i for i in x])\n'
+SOURCES['fix-empty-sequence-comparison#nested'] = 'x = [1]\nflag = True\nr1 = (x == []) == flag\nr2 = print(\n    x != [],\n)\nr3 = 1 if x == () else 2\n'
+SOURCES['invert-boolean-check#nested'] = 'a, b = 1, 2\nr1 = print(\n    not a == b,\n)\nr2 = [not a < b for _ in (1,)]\nr3 = not a != b\n'
+SOURCES['numpy-nan-equality#nested'] = 'import numpy as np\na = 1\nr1 = print(\n    a == np.nan,\n)\nr2 = [a != np.nan for _ in (1,)]\n'
+SOURCES['fix-math-isclose#nested'] = 'import math\na = 1.0\nr1 = print(\n    math.isclose(a, 0),\n)\nr2 = [math.isclose(0, a) for _ in (1,)]\n'
+SOURCES['subprocess-shell-false#nested'] = "import subprocess\ncmd = 'ls'\nr = print(\n    subprocess.run(cmd, shell=True),\n)\nq = [subprocess.call(cmd, shell=True) for _ in (1,)]\n"
+SOURCES['use-set-literal#nested'] = 'x = 1\ns1 = print(\n    set([1, 2]),\n)\ns2 = [set([3]) for _ in (1,)]\n'
+SOURCES['remove-unnecessary-f-str#nested'] = 'x = 1\ns1 = print(\n    f"hello",\n)\ns2 = [f"again" for _ in (1,)]\n'
+SOURCES['literal-or-new-object-identity#nested'] = 'x = 1\nr1 = print(\n    x is [1],\n)\nr2 = [x is (1, 2) for _ in (1,)]\n'
+# sources for codemods that do not consult line patterns for their (multi-line) construct: only the pattern-free clause
+# `{change.lineNumber} == lines rewritten` is checked for them
+NO_PATTERN_SOURCES = {
+    'use-walrus-if#nested': 'def f(g, c):\n    if c:\n        x = g()\n        if x:\n            print(x)\n    y = g()\n    if y:\n        print(y)\n    return 1\n',
+    'use-walrus-if#loop': 'def f(g, c):\n    for _ in c:\n        x = g()\n        if x is None:\n            print(x)\n    try:\n        y = g()\n        if not y:\n            print(y)\n    finally:\n        pass\n',
+}
+DONTCARE = {'harden-pickle-load#nested': {3}, 'use-defusedxml#nested': {3}, 'https-connection#nested': {3}}
+
+
+def _cm(name):
+    return _CM["pixee:python/" + name.split("#")[0]]
 
 
 def _run(name, exclude, include):
     fc = FileContext(Path("/d"), Path("/d/m.py"), exclude, include, None)
-    tree = cst.parse_module(SOURCES[name])
-    for t in _CM["pixee:python/" + name].transformer.transformers:
+    tree = cst.parse_module(SOURCES[name] if name in SOURCES else NO_PATTERN_SOURCES[name])
+    for t in _cm(name).transformer.transformers:
         tree = t.transform(tree, None, fc)
     return tree.code, sorted(c.lineNumber for c in fc.codemod_changes)
 
@@ -177,7 +203,7 @@ def explore(name, include):
             fc = FileContext(Path("/d"), Path("/d/m.py"), [] if include else [sym], [sym] if include else [], None)
             tree = cst.parse_module(src)
             try:
-                for t in _CM["pixee:python/" + name].transformer.transformers:
+                for t in _cm(name).transformer.transformers:
                     tree = t.transform(tree, None, fc)
                 out, lines, exc = tree.code, sorted(c.lineNumber for c in fc.codemod_changes), None
             except Leak:
@@ -189,18 +215,38 @@ def explore(name, include):
     return done, atoms, runs, queries
 
 
+def no_pattern_verdict(name):
+    """Pattern-free run: every line a change entry names was really rewritten (its text is gone from the output)."""
+    src = NO_PATTERN_SOURCES[name]
+    try:
+        out, lines = _run(name, [], [])
+    except Exception as e:  # noqa
+        return "transformer raised %s: %s" % (type(e).__name__, e)
+    if not lines:
+        return "no change at all (the source was chosen to contain sites)"
+    src_lines = src.split("\n")
+    out_lines = [l.strip() for l in out.split("\n")]
+    for L in lines:
+        if src_lines[L - 1].strip() in out_lines:
+            return "a change entry names line %d, but that line was not rewritten:\n%s" % (L, out)
+    return None
+
+
 def _verdict(name, n, include, out, lines, exc):
     if exc is not None:
         return "transformer raised " + exc
     src = SOURCES[name]
     out0, lines0 = _base(name)
     src_lines = src.split("\n")
+    dc = DONTCARE.get(name, set())
     for L in lines0:
+        if L in dc:
+            continue
         kept = _kept(name, L, src_lines, out)
         fixed_expected = (L == n) if include else (L != n)
         if kept == fixed_expected:
             return "site on line %d %s" % (L, "was not fixed" if fixed_expected else "was rewritten although not permitted")
-    exp_lines = [L for L in lines0 if ((L == n) if include else (L != n))]
-    if lines != exp_lines:
+    exp_lines = [L for L in lines0 if L not in dc and ((L == n) if include else (L != n))]
+    if [L for L in lines if L not in dc] != exp_lines:
         return "change entries name lines %r, expected %r" % (lines, exp_lines)
     return None
